@@ -513,6 +513,8 @@ func c05HSpec(tier string) *HSpec {
 		}
 		alpha = append(alpha, "remove "+n)
 	}
+	// commands that install a service again without claiming anything new, and a restart (the table is rebuilt)
+	alpha = append(alpha, "rdeploy s1 n=1", "rdeploy s2 n=1", "restart")
 	return &HSpec{
 		Prop: "C05", Name: "C05-H", Depth: depth,
 		Alphabet: func(m *Model, d int) []string {
